@@ -21,7 +21,8 @@ def main():
     shutil.rmtree(SCR, ignore_errors=True); os.makedirs(SCR)
     h = os.path.join(SCR, 'harness')
     shutil.copytree(os.path.join(V, 'harness'), h, ignore=shutil.ignore_patterns('target', 'build'))
-    env = dict(os.environ, CARGO_NET_OFFLINE='true', RUSTFLAGS='-C instrument-coverage', CARGO_TARGET_DIR=os.path.join(SCR, 'target'))
+    env = dict(os.environ, CARGO_NET_OFFLINE='true', RUSTFLAGS='-C instrument-coverage', CARGO_TARGET_DIR=os.path.join(SCR, 'target'),
+               LLVM_PROFILE_FILE=os.path.join(SCR, 'build-%p.profraw'))      # instrumented build scripts must not write into /repo
     r = subprocess.run(['cargo', '+' + TC, 'build', '--release', '--offline'], cwd=h, env=env, capture_output=True, text=True)
     if r.returncode != 0:
         print(r.stderr[-3000:]); sys.exit(2)
